@@ -19,6 +19,11 @@ class Ctx:
         txt = open(gen_dir + "/Consts.v").read()
         self.STR_SIZE = int(re.search(r"STR_SIZE : N := (\d+)", txt).group(1))
         self.nl = len(self.langs)
+        try:
+            from . import core as _core
+            self.extra = _core.new_source_literals()[:24]
+        except Exception:
+            self.extra = []
 
     def seed(self, enc=None, feat=None):
         r = self.rng
@@ -881,7 +886,68 @@ def s_exits(cx):
     return L
 
 
+# ------------------------------------------------------------------- S-aimed
+def s_aimed(cx):
+    """directed at integer literals that a change put into the C text (absent from the pinned release):
+    every API entry gets the literal, its neighbours and derived values where an argument can hold
+    them.  Empty on the unchanged tree."""
+    L = []
+    r = cx.rng
+    for c in cx.extra:
+        c32 = c & 0xFFFFFFFF
+        sec, b, f = cx.seed(feat=0, enc=0)
+        L += ["reset", "enable mask=7"]
+        h = 0
+        for t in sorted(set([max(c - 1, 0), c, min(c + 1, 2 ** 64 - 1), (P.EPOCH + c) % 2 ** 64,
+                             (P.EPOCH + c * P.STEP) % 2 ** 64, (P.EPOCH + (c % 1024) * P.STEP + 7) % 2 ** 64])):
+            L += ["create feat=%d rand=%s clock=%d ok=1" % (c32 & 7, hx(sec), t), "birthday h=%d" % h]
+            h += 1
+        L += ["reset", "enable mask=%d" % c32, "create feat=%d rand=%s clock=%d ok=1" % (c32, hx(sec), P.EPOCH),
+              "enable mask=7"]
+        byte = c & 255
+        variants = [[byte] * 18 + [byte & 63]]
+        for k in range(19):
+            v = list(sec)
+            v[k] = byte & (63 if k == 18 else 255)
+            variants.append(v)
+        for v in variants:
+            for (bb, ff) in ((c % 1024, c % 32), (b, f)):
+                L += ["reset", "enable mask=7", load_op(v, bb, ff & 23), "store h=0", "birthday h=0", "feature h=0 mask=%d" % c32,
+                      "isenc h=0", "keygen h=0 coin=%d size=32" % (c % 2048), "encode h=0 lang=0 coin=%d" % (c % 2048),
+                      "crypt h=0 pw=%s" % hx(bytes([byte or 1]) * 3), "store h=0"]
+                idx = P.indices(v, bb, ff & 23, c % 2048)
+                li = r.choice([0, 3, 5, 8]) if cx.quick else r.randrange(cx.nl)
+                ph = cx.langs.phrase(li, idx)
+                L += ["decodex coin=%d lang=%d str=%s ok=1" % (c % 2048, li, hx(ph)), "decode coin=%d str=%s ok=1" % (c % 2048, hx(ph))]
+        # a word with index c at each position, valid check word
+        for pos in range(1, 16):
+            sec2, b2, f2 = cx.seed(feat=0, enc=0)
+            idx = P.indices(sec2, b2, f2, 0)
+            idx[pos] = c % 2048
+            idx[0] = P.gf_eval([0] + idx[1:])
+            ph = cx.langs.phrase(0, idx)
+            L += ["reset", "decodex coin=0 lang=0 str=%s ok=1" % hx(ph)]
+        # two new byte constants at two positions of the secret (a change that tests two bytes at once)
+        for c2 in cx.extra[:6]:
+            if c2 == c or not (c < 256 and c2 < 256):
+                continue
+            for k1 in range(19):
+                for k2 in range(19):
+                    if k1 == k2:
+                        continue
+                    v = list(sec)
+                    v[k1] = c & (63 if k1 == 18 else 255)
+                    v[k2] = c2 & (63 if k2 == 18 else 255)
+                    L += ["reset", load_op(v, b, f), "encode h=0 lang=0 coin=0", "store h=0"]
+        if c <= 3000:
+            for n in (max(c - 1, 0), c, c + 1):
+                L += ["reset", "decode coin=0 str=%s ok=1" % hx(b"a" * n), "decode coin=0 str=%s ok=1" % hx(b" ".join([b"abandon"] * min(n, 60))),
+                      load_op(sec, b, f), "crypt h=0 pw=%s" % hx(b"p" * n), "store h=0"]
+    return L
+
+
 SUITES = {
+    "aimed": s_aimed,
     "gf": s_gf, "pack": s_pack, "store": s_store, "bday": s_bday, "feat": s_feat, "coin": s_coin,
     "kdf": s_kdf, "crypt": s_crypt, "len": s_len, "words": s_words, "token": s_token,
     "split": s_split, "auto": s_auto, "seq": s_seq, "seqfault": s_seq_fault, "exits": s_exits,
